@@ -369,3 +369,8 @@ pub fn run(ctx: &mut Ctx) {
         ctx.sample(|| J::obj(vec![("case", J::i(case)), ("valid_hex", J::s(hex::encode(&valid[..valid.len().min(80)]))), ("envelope", J::s(brief(&t)))]));
     }
 }
+
+/// structural mutation entry point reused by the C16 workload (adversarially decoded envelopes)
+pub fn structural_for_c16(item: &Item, rng: &mut Rng) -> (Item, String) {
+    structural(item, rng)
+}
